@@ -158,10 +158,10 @@ import os as _os
 import time as _time
 # wall-clock budget of one exploration (the largest on the pinned tree, Quantile::add, takes ~30 s):
 # a loop the abstract state cannot bound must end the exploration as undecided, not hang the check
-EXPLORE_SECONDS = int(_os.environ.get("AVG_EXPLORE_SECONDS", "300"))
+EXPLORE_SECONDS = int(_os.environ.get("AVG_EXPLORE_SECONDS", "120"))
 # wall-clock budget for ONE path (a loop the evaluator cannot bound keeps stepping with ever larger
 # residuals; the path is then undecided, not the whole run stuck)
-PATH_SECONDS = int(_os.environ.get("AVG_PATH_SECONDS", "90"))
+PATH_SECONDS = int(_os.environ.get("AVG_PATH_SECONDS", "60"))
 
 
 class Config:
